@@ -130,6 +130,9 @@ c15_new!(c15_new_verbose_u16, Shape { storage: false, htyp: H_EXT_BE, msin: M_LO
 c15_new!(c15_new_verbose_two_args, Shape { storage: false, htyp: H_EXT_BE, msin: M_LOG_INFO_V, ids: IDS_FULL, payload: P::Verbose(&[arg(AK::U(1)), arg(AK::Bool)]) }, false);
 c15_new!(c15_new_verbose_string, Shape { storage: false, htyp: H_ALL_LE, msin: M_APP_V, ids: IDS_FULL, payload: P::Verbose(&[arg(AK::Str)]) }, true);
 c15_new!(c15_new_nettrace_le, Shape { storage: false, htyp: H_EXT_LE, msin: M_NW_CAN_V, ids: IDS_FULL, payload: P::NetTrace(&[2, 1]) }, false);
+// verbose-kind payloads with zero arguments / slices: the verbose flag follows the payload KIND, not the count
+c15_new!(c15_new_verbose_empty, Shape { storage: false, htyp: H_EXT_LE, msin: M_LOG_INFO_V, ids: IDS_FULL, payload: P::Verbose(&[]) }, false);
+c15_new!(c15_new_nettrace_empty, Shape { storage: false, htyp: H_EXT_BE, msin: M_NW_CAN_V, ids: IDS_FULL, payload: P::NetTrace(&[]) }, false);
 c15_new!(c15_new_nettrace_be, Shape { storage: false, htyp: H_EXT_BE, msin: M_NW_CAN_V, ids: IDS_FULL, payload: P::NetTrace(&[3]) }, false);
 
 /// An argument typed bool / f32 / f64 that carries a value of another kind
